@@ -27,7 +27,7 @@ def fzC (n : Nat) (c : Color) : Color :=
 
 mutual
 
-def specNodeF (n : Nat) (B : Mode → Color → Color → Color) (V : Rect) (x y : Int) (inClipRun : Bool)
+def specNodeF (k : KoRule) (n : Nat) (B : Mode → Color → Color → Color) (V : Rect) (x y : Int) (inClipRun : Bool)
     (σ : SState) : Node → SState
   | .leaf pr hasPixels color shape clips =>
     if !pr.visible then σ
@@ -38,8 +38,8 @@ def specNodeF (n : Nat) (B : Mode → Color → Color → Color) (V : Rect) (x y
       let aj : Rat := if hasPixels then pasteAt V pr.bbox x y shape 0 else 0
       let Pj : Color := fun ch => aj * color0 ch
       let Pj' := if clips.isEmpty then Pj
-        else fzC n (clipGroupColor (specClipsF n B V x y (fzS n (SState.init Pj aj false)) clips) aj)
-      fzS n (specFinish B V x y σ pr Pj' aj aj)
+        else fzC n (clipGroupColor (specClipsF k n B V x y (fzS n (SState.init Pj aj false)) clips) aj)
+      fzS n (specFinish k B V x y σ pr Pj' aj aj)
   | .group pr passThrough children clips =>
     if !pr.visible then σ
     else if intersect V pr.bbox = Rect.zero then σ
@@ -49,28 +49,28 @@ def specNodeF (n : Nat) (B : Mode → Color → Color → Color) (V : Rect) (x y
       let Pb : Color := if pr.knockout then σ.P0 else σ.P
       let αb : Rat := if pr.knockout then σ.a0 else σ.a
       let inside := V'.contains x y
-      let sub := specListF n B V' x y (fzS n (SState.init Pb αb (!passThrough))) children
+      let sub := specListF k n B V' x y (fzS n (SState.init Pb αb (!passThrough))) children
       let Pj : Color := if inside then fzC n (groupColor sub) else fun _ => 0
       let fj : Rat := if inside then sub.sg else 0
       let aj : Rat := if inside then sub.ag else 0
       let Pj' := if clips.isEmpty then Pj
-        else fzC n (clipGroupColor (specClipsF n B V x y (fzS n (SState.init Pj aj false)) clips) aj)
-      fzS n (specFinish B V x y σ pr Pj' fj aj)
+        else fzC n (clipGroupColor (specClipsF k n B V x y (fzS n (SState.init Pj aj false)) clips) aj)
+      fzS n (specFinish k B V x y σ pr Pj' fj aj)
 
-def specListF (n : Nat) (B : Mode → Color → Color → Color) (V : Rect) (x y : Int) (σ : SState) : List Node → SState
+def specListF (k : KoRule) (n : Nat) (B : Mode → Color → Color → Color) (V : Rect) (x y : Int) (σ : SState) : List Node → SState
   | [] => σ
-  | nd :: rest => specListF n B V x y (specNodeF n B V x y false σ nd) rest
+  | nd :: rest => specListF k n B V x y (specNodeF k n B V x y false σ nd) rest
 
-def specClipsF (n : Nat) (B : Mode → Color → Color → Color) (V : Rect) (x y : Int) (σ : SState) : List Node → SState
+def specClipsF (k : KoRule) (n : Nat) (B : Mode → Color → Color → Color) (V : Rect) (x y : Int) (σ : SState) : List Node → SState
   | [] => σ
-  | nd :: rest => specClipsF n B V x y (specNodeF n B V x y true σ nd) rest
+  | nd :: rest => specClipsF k n B V x y (specNodeF k n B V x y true σ nd) rest
 
 end
 
 /-- `specDoc` through the tabulating evaluator -/
-def specDocF (n : Nat) (B : Mode → Color → Color → Color) (V : Rect) (x y : Int) (P : Color) (alpha : Rat)
+def specDocF (k : KoRule) (n : Nat) (B : Mode → Color → Color → Color) (V : Rect) (x y : Int) (P : Color) (alpha : Rat)
     (layers : List Node) : Color × Rat × Rat :=
-  let σ := specListF n B V x y (fzS n (SState.init P alpha false)) layers
+  let σ := specListF k n B V x y (fzS n (SState.init P alpha false)) layers
   (groupColor σ, σ.sg, σ.ag)
 
 end PsdVerif.Composite
